@@ -1,6 +1,6 @@
 (** Issuance LTS: F4c for ManageSync (partial) -- the caller's own steps. *)
 From Coq Require Import List Bool Arith Lia.
-From CM Require Import Issuance.Model Issuance.Proofs Issuance.Invariants Issuance.NoReissueTL Issuance.AgreeTL Issuance.Takeover Issuance.ManageTL.
+From CM Require Import Issuance.Model Issuance.Proofs Issuance.Invariants Issuance.NoReissueTL Issuance.AgreeTL0 Issuance.Takeover Issuance.ManageTL.
 Import ListNotations.
 
 (** * What a ManageSync caller that has had no fault of its own can rely on *)
